@@ -51,7 +51,8 @@ class Project:
 
     def name_of_uri(self, uri):
         prefix = uri_of(self.dir) + "/"
-        return uri[len(prefix):] if uri.startswith(prefix) else uri
+        import urllib.parse
+        return urllib.parse.unquote(uri[len(prefix):]) if uri.startswith(prefix) else uri
 
     def pos_request(self, method, name, line, character, extra=None):
         params = {"textDocument": {"uri": self.uri(name)}, "position": {"line": line, "character": character}}
